@@ -167,7 +167,7 @@ pub fn run(rc: &mut RunCtx) {
     let seed = rc.seed;
     // (1) exhaustive: all well-formed histories for <= N tags, several starts,
     //     all drop patterns in {full, take 0, take 1} for <= 3 tags, random for more
-    let maxn = if rc.quick() { 4 } else { 5 };
+    let maxn = if rc.miri() { 3 } else if rc.quick() { 4 } else { 5 };
     for n in 1..=maxn {
         for (si, start) in [1u64, 2, 1000, u64::MAX - 16].iter().enumerate() {
             let id = format!("exh:n={}:start={}", n, start);
@@ -228,7 +228,7 @@ pub fn run(rc: &mut RunCtx) {
     }
     rc.note("exhaustive_over", json!(format!("all well-formed histories of <= {} tags x ack/nack (x all drop patterns over {{full, take 0, take 1}} for <= 3 tags)", maxn)));
     // (2) random well-formed histories up to 200 tags
-    let n = rc.n(3000, 150000);
+    let n = if rc.miri() { 40 } else { rc.n(3000, 150000) };
     for i in 0..n {
         let id = format!("rand:{}", i);
         if !rc.mine(&id) {
@@ -274,7 +274,7 @@ pub fn run(rc: &mut RunCtx) {
         rc.end(res);
     }
     // (3) arbitrary (duplicate / stale) streams: safety half only
-    let n = rc.n(1500, 60000);
+    let n = if rc.miri() { 40 } else { rc.n(1500, 60000) };
     for i in 0..n {
         let id = format!("arb:{}", i);
         if !rc.mine(&id) {
